@@ -41,7 +41,7 @@ Inductive instr :=
 | IPark (code : Z)      (* "claim" inside promise's move constructor while the init function parks the source
                            promise where the resolver finds it; the rest of the step completes the parking
                            (make_promise into a reusable_storage_mtsafe: the step after "busy_g") *)
-| IRel                  (* reusable_storage_mtsafe::dealloc at "busy_s": the step clears the busy flag  coro_storage.h:174-182 *)
+| IRel                  (* (unused since the storages' own hook points are filtered out: a release as a separate step) *)
 | IXWait                (* resolver thread: waits until the promise has been parked *)
 | IClaim (who : nat)     (* promise::claim  future.h:698-701, then set  future.h:644-648 (p(drop): no set, future.h:657-663);
                            who = 0 inside the init function, 1 the primary resolver, 2 the competing resolver *)
@@ -187,9 +187,9 @@ Definition fire (c : cfg) (s : st) (i : nat) : st :=
          future.h:884-888 _fn( *_this ); delete _this *)
       let s2 := add_log s1 ([ECb (payload s) (allocs s) (frees s); ECbRet (allocs s) (frees s);
                              EFun (allocs s) (frees s)] ++ (if has_sd (c_stor c) then [ESd] else [])) in
-      (* the block goes back: operator delete / Storage::dealloc; the mtsafe storage has a hook point inside dealloc *)
-      if Nat.eqb (c_stor c) 4 then push s2 i [IRel]
-      else set_cnt s2 (S (frees s)) (nfire s1) (nconv s) (ndeliv s)
+      (* the block goes back: operator delete / Storage::dealloc.  Hook points inside the storages themselves
+         (reusable_storage, reusable_storage_mtsafe: C19) are not steps of this model; the harness filters them out. *)
+      set_cnt s2 (S (frees s)) (nfire s1) (nconv s) (ndeliv s)
   end.
 
 Definition deliver (s : st) : st :=
@@ -296,14 +296,13 @@ Definition mk_prog (c : cfg) : list instr :=
    because the promise object has to outlive the competitor's call *)
 Definition res_prog (c : cfg) : list instr :=
   match c_k c, c_k2 c with KDrop, None => [IDtorP] | _, _ => [IClaim 1] end.
-(* obtaining the helper block from a reusable_storage_mtsafe: "busy_x", "busy_g"  coro_storage.h:156-172 *)
 Definition is_mts (c : cfg) : bool := Nat.eqb (c_stor c) 4.
 Definition reg_prog (c : cfg) : list instr :=
   match c_ad c with
-  | ACbAwait => (if is_mts c then [IPriv 40; IPriv 42] else []) ++ mk_prog c ++ [IReady]
+  | ACbAwait => mk_prog c ++ [IReady]
                                                           (* frame allocation; co_await awt: await_ready, await_suspend *)
-  | AMkProm => if is_mts c then [IPriv 40; IPark 42] else []
-                                                          (* otherwise no hook point: the chain is pre-seeded (future.h:883) *)
+  | AMkProm => []
+                                                          (* no hook point: the chain is pre-seeded (future.h:883) *)
   | ADiscard => mk_prog c ++ [ISub false]                 (* future.h:973-975 *)
   | ACallFn => mk_prog c ++ [ISub false]                  (* future.h:1048-1053 *)
   | AConv => [IPriv 1; IPriv 1] ++ mk_prog c ++ [ISub false; IPriv 2; IOReady]
@@ -317,7 +316,7 @@ Definition is_conv (c : cfg) : bool := match c_ad c with AConv => true | _ => fa
 
 Definition init (c : cfg) : st :=
   mkSt (negb (is_mode c 0))
-       (is_mk c && negb (is_mts c))
+       (is_mk c)
        (if is_mk c then SSub else if is_mode c 0 then SReady else SEmpty)
        (if is_mode c 0 then out_of (c_k c) else ONone)
        (is_conv c) SEmpty ONone false None
